@@ -1,7 +1,134 @@
-import KDVerif.Model.Interleaved
+/-
+C04 — Interleaved scheduler: main stream, batch cutting and stopping point are exact.
+
+`trainLoop` (Model/Interleaved.lean) mirrors `InterleavedSampler._training_loop` sample by sample.
+`l1` (Model/InterleavedSpec.lean) is the property's per-update reading: take the next batch of
+`min B (samples_per_epoch - p)` indices of the epoch's list, flags F…FT, bump counters, side passes,
+budget test after every update.
+-/
+import KDVerif.Lemmas.Interleaved
+
 namespace KDVerif.C04
 open KDVerif.Interleaved
 
-theorem placeholder : True := trivial
+/-- an accepted constructor call passed the geometry and config asserts and has a checkpoint -/
+theorem ctor_ok (a : Args) (sa : StartArg) (st : Start) (h : ctor a sa = .ok st) :
+    geomOk a = true ∧ a.configs.all cfgOk = true ∧ startOf a sa = .ok st := by
+  unfold ctor at h
+  by_cases hc : (geomOk a && a.configs.all cfgOk) = true
+  · simp only [hc, if_true] at h
+    simp only [Bool.and_eq_true] at hc
+    exact ⟨hc.1, hc.2, h⟩
+  · simp [hc] at h
+
+/-- every geometry the constructor accepts has a positive batch size and a non-empty epoch
+    that fits into the main sampler's length -/
+theorem ctor_ok_geometry (a : Args) (sa : StartArg) (st : Start) (h : ctor a sa = .ok st) :
+    0 < a.B ∧ a.B ≤ a.N ∧ 0 < spe a ∧ spe a ≤ a.N := by
+  have hg := (ctor_ok a sa st h).1
+  unfold geomOk at hg
+  simp only [Bool.and_eq_true, bne_iff_ne, ne_eq, decide_eq_true_eq] at hg
+  obtain ⟨⟨hB, hN⟩, hd⟩ := hg
+  have hBpos : 0 < a.B := Nat.pos_of_ne_zero hB
+  refine ⟨hBpos, hN, ?_, ?_⟩
+  · unfold spe
+    cases hdl : a.dropLast with
+    | false => simp; omega
+    | true =>
+      simp only [if_true]
+      cases hds : a.dropLastBS with
+      | none =>
+        simp only
+        have : 0 < a.N / a.B := Nat.div_pos hN hBpos
+        exact Nat.mul_pos this hBpos
+      | some d =>
+        simp only
+        rw [hds] at hd
+        simp only [Bool.and_eq_true, decide_eq_true_eq] at hd
+        have hdpos : 0 < d := by omega
+        have : 0 < a.N / d := Nat.div_pos hd.2 hdpos
+        exact Nat.mul_pos this hdpos
+  · unfold spe
+    cases a.dropLast with
+    | false => simp
+    | true =>
+      simp only [if_true]
+      cases a.dropLastBS with
+      | none => exact Nat.div_mul_le_self _ _
+      | some d => exact Nat.div_mul_le_self _ _
+
+/-- **It always ends, and what it yields is the per-update stream.**
+    For every argument set the constructor accepts, every main sampler that yields `len` indices per
+    epoch, every side oracle and every start checkpoint that lies strictly before the budget:
+    the per-sample loop that mirrors the code stops by itself (for every fuel above an explicit
+    bound, with one and the same output), and its output is exactly the per-update stream `l1`. -/
+theorem train_terminates_and_refines (a : Args) (sa : StartArg) (st : Start)
+    (hctor : ctor a sa = .ok st)
+    (main : Nat → List Nat) (hmain : ∀ e, (main e).length = a.N)
+    (side : Nat → Nat → List Nat)
+    (hbefore : before a.budget (l1Start main st)) :
+    ∃ evs, l1 a main side (meas a (l1Start main st)) st = some evs ∧
+      ∀ fuel, meas a (l1Start main st) < fuel → trainLoop a main side fuel (initSt st) = some evs := by
+  obtain ⟨hB, _, hS, hSN⟩ := ctor_ok_geometry a sa st hctor
+  have hterm := l1Loop_terminates a main side hB (meas a (l1Start main st)) (l1Start main st)
+    (by simp only [l1Start]; exact hS) hbefore (Nat.le_refl _)
+  rcases hrec : l1Loop a main side (meas a (l1Start main st)) (l1Start main st) with _ | body
+  · rw [hrec] at hterm; simp at hterm
+  · refine ⟨Ev.setEpoch st.epoch :: body, by simp [l1, hrec], ?_⟩
+    intro fuel hfuel
+    exact trainLoop_of_l1 a main side hB hS (fun e => by rw [hmain e]; exact hSN) _ st _
+      (by simp [l1, hrec]) fuel hfuel
+
+/-- the budget test is made after every update and nowhere else: the per-update machine stops at an
+    update iff the budget is reached by the counters *after* that update (not one earlier or later) -/
+theorem stops_exactly_when_budget_reached (a : Args) (u : U) :
+    l1Ctl a u = .ret ↔
+      budgetReached a.budget (l1Next a u).epoch (l1Next a u).update (l1Next a u).sample = true := by
+  unfold l1Ctl
+  by_cases hb : budgetReached a.budget (l1Next a u).epoch (l1Next a u).update (l1Next a u).sample = true
+  · simp [hb]
+  · by_cases he : u.p + l1R a u = spe a <;> simp [hb, he]
+
+/-- batches have `B` indices; only an epoch's last batch may be short (it has what is left of
+    `samples_per_epoch`), and an epoch ends exactly when `samples_per_epoch` indices were consumed -/
+theorem batch_size_exact (a : Args) (u : U) (hu : u.Ok a) :
+    (u.xs.take (l1R a u)).length = min a.B (spe a - u.p) ∧
+    ((u.xs.take (l1R a u)).length < a.B → u.p + l1R a u = spe a) := by
+  have h1 := hu.p_lt
+  have h2 := hu.enough
+  unfold l1R
+  rw [List.length_take]
+  omega
+
+/-- the remainder dropped under `drop_last` is smaller than the unit it is dropped in
+    (`drop_last_batch_size` if given, else the batch size); nothing is dropped without `drop_last` -/
+theorem drop_last_remainder (a : Args) (hB : 0 < a.B) :
+    (a.dropLast = false → spe a = a.N) ∧
+    (a.dropLast = true → a.dropLastBS = none → spe a ≤ a.N ∧ a.N - spe a < a.B ∧ spe a % a.B = 0) ∧
+    (∀ d, a.dropLast = true → a.dropLastBS = some d → 0 < d →
+        spe a ≤ a.N ∧ a.N - spe a < d ∧ spe a % d = 0) := by
+  refine ⟨?_, ?_, ?_⟩
+  · intro h; simp [spe, h]
+  · intro h hn
+    simp only [spe, h, hn, if_true]
+    refine ⟨Nat.div_mul_le_self _ _, ?_, Nat.mul_mod_left _ _⟩
+    have := Nat.div_add_mod a.N a.B
+    have hm := Nat.mod_lt a.N hB
+    rw [Nat.mul_comm] at this
+    omega
+  · intro d h hd hdpos
+    simp only [spe, h, hd, if_true]
+    refine ⟨Nat.div_mul_le_self _ _, ?_, Nat.mul_mod_left _ _⟩
+    have := Nat.div_add_mod a.N d
+    have hm := Nat.mod_lt a.N hdpos
+    rw [Nat.mul_comm] at this
+    omega
+
+/-- non-vacuity: a concrete accepted geometry with a checkpoint before the budget -/
+example : ctor ⟨5, 5, 2, true, none, .epochs 2, []⟩ .none = .ok ⟨0, 0, 0⟩ ∧
+    before (Budget.epochs 2) (l1Start (fun _ => [0, 1, 2, 3, 4]) ⟨0, 0, 0⟩) := by
+  constructor
+  · rfl
+  · simp [before, l1Start]
 
 end KDVerif.C04
